@@ -236,7 +236,15 @@ func checkC03(e *Engine, r *Report) {
 			if !ok {
 				return
 			}
-			b, ok := ifi.Cond.(*ssa.BinOp)
+			condV, negated := ifi.Cond, false
+			for {
+				u, isU := condV.(*ssa.UnOp)
+				if !isU || u.Op != token.NOT {
+					break
+				}
+				negated, condV = !negated, u.X
+			}
+			b, ok := condV.(*ssa.BinOp)
 			if !ok {
 				return
 			}
@@ -246,17 +254,30 @@ func checkC03(e *Engine, r *Report) {
 				}
 				C := c.in.(ssa.Value)
 				var P *ssa.Phi
-				cSmallerOnTrue := false
+				cSmallerOnTrue, matched := false, false
 				switch {
-				case b.X == C && (b.Op == token.LSS || b.Op == token.LEQ):
-					P, _ = b.Y.(*ssa.Phi)
-					cSmallerOnTrue = true
-				case b.Y == C && (b.Op == token.GTR || b.Op == token.GEQ):
-					P, _ = b.X.(*ssa.Phi)
-					cSmallerOnTrue = true
+				case b.X == C && (b.Op == token.LSS || b.Op == token.LEQ), b.Y == C && (b.Op == token.GTR || b.Op == token.GEQ):
+					cSmallerOnTrue, matched = true, true
+				case b.X == C && (b.Op == token.GTR || b.Op == token.GEQ), b.Y == C && (b.Op == token.LSS || b.Op == token.LEQ):
+					cSmallerOnTrue, matched = false, true
 				}
-				if P == nil || !cSmallerOnTrue {
+				if !matched {
 					continue
+				}
+				if b.X == C {
+					P, _ = b.Y.(*ssa.Phi)
+				} else {
+					P, _ = b.X.(*ssa.Phi)
+				}
+				if P == nil {
+					continue
+				}
+				if negated {
+					cSmallerOnTrue = !cSmallerOnTrue
+				}
+				smallerSucc := ifi.Block().Succs[0]
+				if !cSmallerOnTrue {
+					smallerSucc = ifi.Block().Succs[1]
 				}
 				// C flows back into P only together with P itself (P' = φ(P, C)), taken from the true branch
 				flows, clean := false, true
@@ -287,7 +308,33 @@ func checkC03(e *Engine, r *Report) {
 						walk(ed, 0)
 					}
 				}
-				if flows && clean {
+				// the replacement happens on the branch where the ancestor's capacity is the smaller one
+				onSmaller := true
+				var chk func(v ssa.Value, d int)
+				seen2 := map[ssa.Value]bool{}
+				chk = func(v ssa.Value, d int) {
+					ph, isPhi := v.(*ssa.Phi)
+					if !isPhi || seen2[v] || d > 6 {
+						return
+					}
+					seen2[v] = true
+					for i, ed := range ph.Edges {
+						if ed == C {
+							pred := ph.Block().Preds[i]
+							if !(smallerSucc == pred || smallerSucc.Dominates(pred)) || len(smallerSucc.Preds) != 1 {
+								onSmaller = false
+							}
+						} else if ed != ssa.Value(P) {
+							chk(ed, d+1)
+						}
+					}
+				}
+				for i, ed := range P.Edges {
+					if P.Block().Dominates(P.Block().Preds[i]) {
+						chk(ed, 0)
+					}
+				}
+				if flows && clean && onSmaller {
 					minOK = true
 				}
 			}
